@@ -195,14 +195,6 @@ theorem log_entry_source (es : List Ev) (hok : (es.foldl applyEv {}).err = none)
 
 /-! ## particles nothing maps to; shared atoms; independence -/
 
-theorem wsum_zero_of_weights (l : List (Rat × V3 Rat)) (h : ∀ t ∈ l, t.1 = 0) : wsum l = 0 := by
-  induction l with
-  | nil => rfl
-  | cons t r ih =>
-    unfold wsum
-    rw [h t List.mem_cons_self, ih (fun t' ht' => h t' (List.mem_cons_of_mem _ ht'))]
-    exact Rat.add_zero 0
-
 /-- all declared weights of a particle are 0 (whatever the coordinates and centre weights): NaN -/
 theorem zero_weights_undefined (geom : List (Atom Rat)) (cw : Option String) (log : List (Int × Int × Rat))
     (k : Int) (hsome : log.any (fun e => e.2.1 == k) = true) (hall : ∀ e ∈ log, e.2.1 = k → e.2.2 = 0) :
@@ -286,20 +278,6 @@ theorem spawned_particle_undefined (geom : List (Atom Rat)) (hg : (geom.map (·.
       have := hs1.2 (ea, ws) n1 (s, ew) n2
       simp at this
     · exact hz
-
-theorem lastW_filter (a k : Int) (log : List (Int × Int × Rat)) (acc : Option Rat) :
-    lastW a k (log.filter (fun e => e.2.1 == k)) acc = lastW a k log acc := by
-  induction log generalizing acc with
-  | nil => rfl
-  | cons e es ih =>
-    by_cases hk : e.2.1 = k
-    · rw [List.filter_cons_of_pos (by simpa using hk)]
-      simp only [lastW]
-      exact ih _
-    · rw [List.filter_cons_of_neg (by simpa using hk)]
-      simp only [lastW]
-      rw [if_neg (fun hh => hk hh.2.symm)]
-      exact ih _
 
 /-- the position of a particle depends on the assignments that name THAT particle only: what an atom
 weighs in another particle is irrelevant -/
